@@ -42,6 +42,8 @@ def main():
     ap.add_argument("--tier", default="quick")
     ap.add_argument("--keep", action="store_true")
     ap.add_argument("--skip-confirm", action="store_true")
+    ap.add_argument("--isolated", action="store_true",
+                    help="apply the change in a scratch worktree and point the checks at it (YAWVERIF_SRC) instead of /repo")
     args = ap.parse_args()
     d = Path(args.dir)
     diff, demo, notes = d / f"{args.x}.diff", d / f"demo_{args.x}.py", d / f"notes_{args.x}.md"
@@ -74,21 +76,37 @@ def main():
     else:
         report["confirmed"] = None
 
-    dirty = sh(["git", "-C", str(REPO), "status", "--porcelain", "--untracked-files=no"])[1].strip()
-    if dirty:
-        sys.exit(f"/repo dirty, refusing: {dirty}")
-    rc, out = sh(["git", "-C", str(REPO), "apply", str(diff)])
-    if rc != 0:
-        sys.exit(f"cannot apply to /repo: {out}")
+    env_checks = {}
+    iso = None
+    if args.isolated:
+        iso = Path(f"/tmp/seediso-{args.prop}-{args.x}-{int(time.time())}")
+        rc, out = sh(["git", "-C", str(REPO), "worktree", "add", "-q", "--detach", str(iso), "HEAD"])
+        assert rc == 0, out
+        shutil.copy(REPO / "src/yaw/_version.py", iso / "src/yaw/_version.py")
+        rc, out = sh(["git", "apply", str(diff)], cwd=iso)
+        if rc != 0:
+            sh(["git", "-C", str(REPO), "worktree", "remove", "--force", str(iso)])
+            sys.exit(f"cannot apply to scratch worktree: {out}")
+        env_checks = dict(YAWVERIF_SRC=str(iso / "src"), YAWVERIF_OUT=str(iso / "_verif_out"))
+    else:
+        dirty = sh(["git", "-C", str(REPO), "status", "--porcelain", "--untracked-files=no"])[1].strip()
+        if dirty:
+            sys.exit(f"/repo dirty, refusing: {dirty}")
+        rc, out = sh(["git", "-C", str(REPO), "apply", str(diff)])
+        if rc != 0:
+            sys.exit(f"cannot apply to /repo: {out}")
     try:
         for pid in checks:
             t = time.time()
-            rc, out = sh([str(VERIF / "check"), pid, "--tier", args.tier], cwd=VERIF, timeout=3600)
+            rc, out = sh([str(VERIF / "check"), pid, "--tier", args.tier], cwd=VERIF, timeout=3600, env=env_checks)
             mechs = [l.split("mechanism=")[1].split(" ")[0] for l in out.splitlines() if "violation mechanism=" in l]
             viol = any(l.startswith("VIOLATION") for l in out.splitlines())
             report["checks"][pid] = dict(exit=rc, caught=bool(rc == 1 and viol), mechanisms=mechs[:8], wall_s=round(time.time() - t, 1))
     finally:
-        sh(["git", "-C", str(REPO), "checkout", "--", "."])
+        if iso is not None:
+            sh(["git", "-C", str(REPO), "worktree", "remove", "--force", str(iso)])
+        else:
+            sh(["git", "-C", str(REPO), "checkout", "--", "."])
     print(json.dumps(report, indent=1))
     if args.keep:
         dest = VERIF / "seeded" / f"{args.prop}-{args.x}"
